@@ -153,7 +153,43 @@ def run(check, repo: Repo) -> None:
     check.decide(ok and pf == ["phi.flatten()"], "C17-R2", "_build_edges: increments are computed between the edge's two end points of the input field, in (i1, i2) order",
                  "", mod.line(ae), fail_detail=f"_find_wrap is called with {[unparse(a) for a in fc[0].args] if fc else '?'} on phi_f = {pf}")
     uc = [c for c in calls_in(drv) if (call_name(c) or "").endswith(".union")]
-    ok = len(uc) == 1 and [unparse(a) for a in uc[0].args] == ["i1[k].item()", "i2[k].item()", "inc[k].item()"]
+    def _elem_sources(call):
+        """per argument: the array whose k-th element it is (X[k].item(), or a loop target bound by enumerate(X) / zip(X, Y, …) / `for x in X`), all at the same position"""
+        from ..core.repo import enclosing
+        loop = enclosing(call, (ast.For,))
+        if loop is None:
+            return None
+        bound = {}
+        idx = None
+        it, tg = loop.iter, loop.target
+        if isinstance(it, ast.Call) and call_name(it) == "enumerate" and isinstance(tg, ast.Tuple) and len(tg.elts) == 2 and isinstance(tg.elts[0], ast.Name):
+            idx = tg.elts[0].id
+            it, tg = it.args[0], tg.elts[1]
+        if isinstance(it, ast.Call) and call_name(it) == "zip" and isinstance(tg, ast.Tuple) and len(tg.elts) == len(it.args):
+            for t_, a_ in zip(tg.elts, it.args):
+                if isinstance(t_, ast.Name):
+                    bound[t_.id] = unparse(a_)
+        elif isinstance(tg, ast.Name) and isinstance(it, ast.Call) and call_name(it) == "range":
+            idx = tg.id
+        elif isinstance(tg, ast.Name):
+            bound[tg.id] = unparse(it)
+        out = []
+        for a in call.args:
+            while isinstance(a, ast.Call) and isinstance(a.func, ast.Attribute) and a.func.attr in ("item", "long", "int") and not a.args:
+                a = a.func.value
+            if isinstance(a, ast.Call) and call_name(a) == "int" and len(a.args) == 1:
+                a = a.args[0]
+            if isinstance(a, ast.Name) and a.id in bound:
+                out.append(bound[a.id])
+            elif isinstance(a, ast.Subscript) and isinstance(a.slice, ast.Name) and idx is not None and a.slice.id == idx:
+                out.append(unparse(a.value))
+            else:
+                return None
+        return out
+    srcs = _elem_sources(uc[0]) if len(uc) == 1 else None
+    if len(uc) == 1 and srcs is None:
+        raise AnalysisError(f"driver: arguments of `{unparse(uc[0])[:70]}` are not recognised as the k-th elements of the edge arrays")
+    ok = srcs == ["i1", "i2", "inc"]
     check.decide(ok, "C17-R2", "driver: union(i1, i2, inc) pairs each edge with its own increment in the same orientation", "", mod.line(drv),
                  fail_detail=f"union is called with {[unparse(a) for a in uc[0].args] if uc else '?'}")
 
